@@ -114,6 +114,57 @@ def run_cvc5(text, timeout_s):
 
 
 def discharge(ob, timeout_ms=20000, second_backend=True):
+    """Discharge with escalation of the axiom-instantiation depth: few instances first (fast, stable queries);
+    a non-`unsat` answer at a shallow depth is never final."""
+    t0 = time.time()
+    top = ob.rounds
+    depths = [r for r in (1, 2) if r < top] + [top]
+    if ob.expect != "valid" or isinstance(ob.goal, bool) or ob.goal is None:
+        depths = [top]
+    for i, r in enumerate(depths):
+        ob.rounds = r
+        _discharge_once(ob, timeout_ms if i == len(depths) - 1 else min(timeout_ms, 4000), second_backend and i == len(depths) - 1)
+        if ob.status == "discharged":
+            break
+    ob.rounds = top
+    ob.ms = (time.time() - t0) * 1000
+    return ob
+
+
+_POOL_OBS = []
+
+
+def _pool_worker(args):
+    i, timeout_ms = args
+    ob = _POOL_OBS[i]
+    try:
+        discharge(ob, timeout_ms)
+    except Exception as ex:  # pragma: no cover
+        ob.status, ob.solver_output = "unknown", f"discharge crashed: {type(ex).__name__}: {ex}"
+    return i, ob.status, ob.backend, ob.ms, ob.model, ob.solver_output
+
+
+def discharge_all(obs, timeout_ms, jobs=None):
+    """Discharge in forked worker processes (one obligation per task): parallel, and each query starts from the
+    same solver state, so verdicts do not depend on the order of the obligations."""
+    import multiprocessing as mp
+
+    global _POOL_OBS
+    jobs = jobs or min(16, os.cpu_count() or 1)
+    if jobs <= 1 or len(obs) < 4:
+        for ob in obs:
+            discharge(ob, timeout_ms)
+        return obs
+    _POOL_OBS = obs
+    ctx = mp.get_context("fork")
+    with ctx.Pool(jobs, maxtasksperchild=8) as pool:
+        for i, status, backend, ms, model, out in pool.imap_unordered(_pool_worker, [(i, timeout_ms) for i in range(len(obs))]):
+            ob = obs[i]
+            ob.status, ob.backend, ob.ms, ob.model, ob.solver_output = status, backend, ms, model, out
+    return obs
+
+
+def _discharge_once(ob, timeout_ms=20000, second_backend=True):
     t0 = time.time()
     if ob.expect != "valid":
         timeout_ms = min(timeout_ms, 2000)
@@ -133,14 +184,38 @@ def discharge(ob, timeout_ms=20000, second_backend=True):
     except Exception as ex:
         ob.status, ob.solver_output = "unknown", f"formula construction failed: {ex}"
         return ob
+    has_t2 = bool(ax)
     s = z3.Solver()
-    s.set("timeout", timeout_ms)
+    s.set("timeout", min(timeout_ms, 3000) if has_t2 and ob.expect == "valid" else timeout_ms)
     s.add(*asserts)
     s.add(*ax)
     r = s.check()
     ob.backend = f"z3-{z3.get_version_string()}"
-    if r == z3.unknown and ob.expect == "valid":
-        # retry with the nlsat tactic pipeline, then cvc5
+    if r == z3.unknown and has_t2 and not any(_has_q(a) for a in asserts):
+        # Ackermann reduction of the T2 symbols (exact for ground formulas) -> pure QF_NRA -> nlsat
+        try:
+            # (a) plain abstraction (no consistency instances): more models, so `unsat` is conclusive
+            pa = ackermannize(asserts + ax, congruence=False)
+            t = z3.Tactic("qfnra-nlsat").solver()
+            t.set("timeout", timeout_ms)
+            t.add(*pa)
+            ra = t.check()
+            if ra == z3.unsat:
+                r, s = ra, t
+                ob.backend = f"z3-{z3.get_version_string()}(abstraction+nlsat)"
+            else:
+                # (b) exact Ackermann reduction
+                pa = ackermannize(asserts + ax)
+                t = z3.Tactic("qfnra-nlsat").solver()
+                t.set("timeout", timeout_ms)
+                t.add(*pa)
+                r = t.check()
+                if r != z3.unknown:
+                    s = t
+                    ob.backend = f"z3-{z3.get_version_string()}(ackermann+nlsat)"
+        except Exception as ex:  # pragma: no cover
+            ob.solver_output = f"ackermannization failed: {ex}"
+    if r == z3.unknown and ob.expect == "valid" and not has_t2:
         try:
             t = z3.Then("simplify", "purify-arith", "solve-eqs", "smt").solver()
             t.set("timeout", timeout_ms)
@@ -180,6 +255,53 @@ def discharge(ob, timeout_ms=20000, second_backend=True):
         if out == "unknown":
             ob.solver_output = (ob.solver_output or "") + f" z3 reason: {s.reason_unknown()}"
     return ob
+
+
+def _has_q(e):
+    from .interp import _has_quantifier
+
+    return _has_quantifier(e)
+
+
+def ackermannize(asserts, congruence=True):
+    """Replace every application of an uninterpreted T2 function by a fresh real constant and add ALL functional
+    consistency instances (a1 == a2 -> c1 == c2): equisatisfiable for ground formulas."""
+    from .values import UF
+
+    names = {f.name() for f in UF.values()}
+    cache, consts = {}, {}
+
+    def rb(e):
+        i = e.get_id()
+        if i in cache:
+            return cache[i]
+        if z3.is_app(e) and e.num_args() > 0:
+            ch = [rb(c) for c in e.children()]
+            d = e.decl()
+            if d.kind() == z3.Z3_OP_UNINTERPRETED and d.name() in names:
+                key = (d.name(), ch[0].get_id())
+                if key not in consts:
+                    consts[key] = (z3.Real(f"{d.name()}!{len(consts)}"), ch[0])
+                r = consts[key][0]
+            else:
+                r = d(*ch)
+        else:
+            r = e
+        cache[i] = r
+        return r
+
+    out = [rb(a) for a in asserts]
+    if not congruence:
+        return out
+    by_fn = {}
+    for (name, _i), (c, arg) in consts.items():
+        by_fn.setdefault(name, []).append((c, arg))
+    import itertools
+
+    for name, lst in by_fn.items():
+        for (c1, a1), (c2, a2) in itertools.combinations(lst, 2):
+            out.append(z3.Implies(a1 == a2, c1 == c2))
+    return out
 
 
 def apps_of(decl, exprs):
@@ -257,7 +379,14 @@ class Ctx:
         self.interp.used_lib, self.interp.executed, self.interp.dropped = used, ex, dr
         return self.interp
 
-    def oblige(self, oid, goal, hyps=(), props=(), kind="post", expect="valid", fn=None, replay=None, **kw):
+    def oblige(self, oid, goal, hyps=(), props=(), kind="post", expect="valid", fn=None, replay=None, cases=None, **kw):
+        if cases:
+            # case split (helps the nonlinear solver): one obligation per case + exhaustiveness of the cases
+            self.oblige(f"{oid}/cases_exhaustive", z3.Or(*[c for _n, c in cases]), hyps, props, kind="cases", fn=fn, **kw)
+            out = None
+            for n, c in cases:
+                out = self.oblige(f"{oid}[{n}]", goal, list(hyps) + [c], props, kind=kind, expect=expect, fn=fn, replay=replay, **kw)
+            return out
         ob = Obligation(oid=oid, props=list(props), kind=kind, hyps=list(hyps), goal=goal, expect=expect, fn=fn, replay=replay, **kw)
         self.obligations.append(ob)
         return ob
